@@ -32,9 +32,10 @@ ASSUMPTIONS = [
     "the 'statically for every module' clause cannot be decided by running code: it is covered by the auxiliary AST walk reported under coverage.static_lint",
 ]
 PROBES = ["io_fault_fired", "crash_fired", "torn_tmp_left_behind", "second_run_after_crash", "input_fault_error_path", "stale_report_unlink_faulted",
-          "enospc_mid_save", "vanish_fired", "log_dir_fault_fired", "walk_packages_run", "syscall_monitored_run"]
+          "enospc_mid_save", "vanish_fired", "log_dir_fault_fired", "walk_packages_run", "syscall_monitored_run", "io_fault_sequence_fired", "double_crash_fired", "crash_point_sweep"]
 
 STRACE_SHARE = 0.25
+CRASH_WORLDS = {"quick": 1, "thorough": 8}
 NETWORK_MODULES = {"socket", "socketserver", "ssl", "http.client", "http.server", "urllib.request", "urllib3", "requests", "httpx", "aiohttp",
                    "ftplib", "smtplib", "poplib", "imaplib", "telnetlib", "nntplib", "xmlrpc", "xmlrpc.client", "xmlrpc.server", "websocket",
                    "websockets", "http.cookiejar", "urllib.robotparser", "pycurl", "paramiko", "grpc", "asyncio.streams"}
@@ -80,6 +81,8 @@ def make_case(seed, facts, index=0):
         from .c12 import _choose_faults  # pylint: disable=import-outside-toplevel
 
         base["fault"] = _choose_faults(rng, base["world"], base["opts"], facts, 1)[0][0]  # class-balanced, as in C12
+        if rng.random() < 0.3:
+            base["fault"] = rng.choice(faults.enumerate_oddities(base["world"], base["opts"]))  # inputs of debatable validity: tolerance / repair paths
     elif mode == "io_fault":
         f = dict(rng.choice(IO_FAULTS))
         if "after_bytes" in f and rng.random() < 0.5:
@@ -93,6 +96,17 @@ def make_case(seed, facts, index=0):
             pass
     elif mode == "crash_history":
         base["crash_at"] = rng.randint(1, 90)
+    # fault *sequences*: a second and third I/O fault in the same run; a second crash during the restart, then a third run
+    if mode == "io_fault" and rng.random() < 0.3:
+        more = []
+        for _ in range(rng.choice([1, 1, 2])):
+            f2 = dict(rng.choice(IO_FAULTS))
+            if rng.random() < 0.5:
+                f2["nth"] = rng.randint(1, 4)
+            more.append(f2)
+        base["io_faults_more"] = more
+    if mode == "crash_history" and rng.random() < 0.3:
+        base["crash_at2"] = rng.randint(1, 90)
     # a share of the runs is also observed at the system-call level (strace), independently of the audit hook
     base["strace"] = rng.random() < STRACE_SHARE
     return base
@@ -144,11 +158,12 @@ def monitors(res, inputs_exist=True):
     for p, kind in sorted(core.snapshot_diff(res).items()):
         if kind == "deleted" and p in vanished:
             continue  # removed by the simulator itself (file vanishing between exists() and open), not by the program
-        if p == out_rel or p.startswith(out_rel + os.sep) or p == log_rel or p.startswith(log_rel + os.sep):
+        is_input = p in (core.rel_world(res, lay["config"] or "/x"), core.rel_world(res, lay["input"] or "/x"))
+        if not is_input and (p == out_rel or p.startswith(out_rel + os.sep) or p == log_rel or p.startswith(log_rel + os.sep)):
             continue
         if kind == "created" and out_rel.startswith(p + os.sep) and res["after"][p][0] == "d":
             continue
-        cls = "input-modified" if p in (core.rel_world(res, lay["config"] or "/x"), core.rel_world(res, lay["input"] or "/x")) else "write-outside"
+        cls = "input-modified" if is_input else "write-outside"
         v.append({"cls": cls, "site": "listing:%s" % kind, "detail": p})
     del inputs_exist
     return v
@@ -247,7 +262,7 @@ def exec_case(case, facts, src=None):
     else:
         w, files = core.layout_case("c18", world, opts, case.get("prestate"))
     try:
-        io_faults = [case["io_fault"]] if mode == "io_fault" else None
+        io_faults = ([case["io_fault"]] + list(case.get("io_faults_more") or [])) if mode == "io_fault" else None
         crash_at = case.get("crash_at") if mode == "crash_history" else None
         res = runner.run(w, files, opts, host=case["host"], faults=io_faults, crash_at=crash_at, record_imports=True, src=src, strace=bool(case.get("strace")))
         stats["runs"] += 1
@@ -261,6 +276,8 @@ def exec_case(case, facts, src=None):
         sample.update({"argv": res["argv"], "exit": res["rc"], "io_steps": child.get("io_steps"), "faults_fired": child.get("faults"), "crashed": child.get("crashed")})
         if mode == "io_fault":
             stats["cfg:io:%s:%s" % (case["io_fault"]["op"], case["io_fault"]["cls"])] = 1
+            if len(child.get("faults") or []) > 1:
+                stats["probe:io_fault_sequence_fired"] = 1
             if child.get("faults"):
                 f0 = child["faults"][0]
                 stats["fault:io:%s:%s" % (f0["fault"], f0["cls"])] = 1
@@ -285,7 +302,14 @@ def exec_case(case, facts, src=None):
             if child.get("crashed"):
                 stats["fault:crash"] = 1
                 stats["probe:crash_fired"] = 1
-            # restart on the surviving directory
+            # restart on the surviving directory (optionally killed again, then restarted once more)
+            if case.get("crash_at2"):
+                res1b = runner.run(w, files, opts, host=dict(case["host"], epoch_ns=case["host"]["epoch_ns"] + 1800 * 10**9), crash_at=case["crash_at2"], src=src)
+                stats["runs"] += 1
+                violations += [dict(x, detail="(second crash) " + x["detail"]) for x in monitors(res1b)]
+                if (res1b.get("child") or {}).get("crashed"):
+                    stats["probe:double_crash_fired"] = 1
+                trace_sig.append(tuple(core.fs_trace(res1b)))
             res2 = runner.run(w, files, opts, host=dict(case["host"], epoch_ns=case["host"]["epoch_ns"] + 3600 * 10**9), record_imports=False, src=src, strace=bool(case.get("strace")))
             stats["runs"] += 1
             stats["probe:second_run_after_crash"] = 1
@@ -318,7 +342,7 @@ def reduce_candidates(case):
 def extra_phase(tier, master, facts, src, log):
     from .. import engine  # pylint: disable=import-outside-toplevel
 
-    del tier, facts
+    del facts
     case = {"property": PROP, "seed": gen.case_seed(master, PROP + "-walk", 0), "index": 10**9, "mode": "walk_packages", "host": dict(gen.BASE_HOST),
             "world": None, "opts": {"country": "us"}}
     outs = engine.run_cases(PROP, [case], src=src)
@@ -327,22 +351,57 @@ def extra_phase(tier, master, facts, src, log):
     from .c12 import _kind_sweep_cases  # pylint: disable=import-outside-toplevel
 
     sweep = []
+    seen_worlds = set()
     for k, c12case in enumerate(_kind_sweep_cases(master, tree.all_facts(src or runner.DEFAULT_SRC))):
-        for j, f in enumerate(c12case["faults"]):
-            if f["class"] not in ("config", "storage", "cmdline") and c12case["opts"]["country"] != "us":
-                continue  # row-level and table-level kinds on the first world only; config / storage / command-line kinds on all four
+        flist = list(c12case["faults"])
+        if c12case["seed"] not in seen_worlds:
+            seen_worlds.add(c12case["seed"])
+            flist += faults.enumerate_oddities(c12case["world"], c12case["opts"])
+        for j, f in enumerate(flist):
+            if f["class"] not in ("config", "storage", "cmdline", "oddity") and c12case["opts"]["country"] != "us":
+                continue  # row-level and table-level kinds on the first world only; config / storage / command-line kinds and oddities on all four
+            # alternately into a separate output directory and into the directory that holds the input files themselves
+            o = dict(c12case["opts"], outdir="out" if (k + j) % 2 == 0 else "INPUTDIR")
             sweep.append({"property": PROP, "seed": c12case["seed"], "index": 2 * 10**9 + k * 1000 + j, "mode": "input_fault", "fault": f, "world": c12case["world"],
-                          "opts": c12case["opts"], "host": dict(gen.BASE_HOST), "prestate": [], "swarm": c12case["swarm"], "strace": (k + j) % 5 == 0})
+                          "opts": o, "host": dict(gen.BASE_HOST), "prestate": [], "swarm": c12case["swarm"], "strace": (k + j) % 5 == 0})
     sweep_outs = engine.run_cases(PROP, sweep, src=src)
     for o in sweep_outs:
         if "stats" in o:
             o["stats"]["input_fault_kind_sweep_runs"] = o["stats"].get("runs", 0)
     outs += sweep_outs
     log("C18 input-fault kind sweep: %d runs under the monitors" % len(sweep))
+    # crash-point enumeration: for a few fixed worlds, kill the process at *every* I/O step of the run (1..N) and restart it on the
+    # surviving directory; the monitors are evaluated on both runs
+    sweep_info = []
+    crash_cases = []
+    n_worlds = int(os.environ.get("RP2SIM_CRASH_WORLDS", "0")) or CRASH_WORLDS[tier]
+    all_facts = tree.all_facts(src or runner.DEFAULT_SRC)
+    for k in range(n_worlds):
+        base = c16.make_case(gen.case_seed(master, PROP + "-crash", k), all_facts, 0)
+        base["host"] = dict(gen.BASE_HOST)
+        base["prestate"] = ["stale_report", "symlink_stale", "tmp_like"] if k % 2 == 0 else []
+        base["readonly_inputs"] = False
+        w, files = core.layout_case("c18n", base["world"], base["opts"], base["prestate"])
+        try:
+            probe = runner.run(w, files, base["opts"], host=base["host"], crash_at=10**9, src=src)  # never fires; enables the per-write crash points
+        finally:
+            w.cleanup()
+        steps = (probe.get("child") or {}).get("io_steps") or 0
+        sweep_info.append({"world_seed": base["seed"], "entry_point": base["opts"]["country"], "io_steps": steps, "fault_free_exit": probe["rc"],
+                           "assets": len(base["world"]["sheets"]), "prestate": base["prestate"]})
+        for at in range(1, steps + 1):
+            crash_cases.append(dict(base, property=PROP, mode="crash_history", crash_at=at, index=3 * 10**9 + k * 10**4 + at, strace=(at % 7 == 0)))
+    crash_outs = engine.run_cases(PROP, crash_cases, src=src)
+    for o in crash_outs:
+        if "stats" in o:
+            o["stats"]["probe:crash_point_sweep"] = 1
+            o["stats"]["crash_point_sweep_runs"] = o["stats"].get("runs", 0)
+    outs += crash_outs
+    log("C18 crash-point sweep: %d worlds, %d crash points (every I/O step), each followed by a restart" % (n_worlds, len(crash_cases)))
     files, hits = static_lint(src or runner.DEFAULT_SRC)
     lint_violations = [{"cls": "static-network-import", "site": "%s:%s" % (f, m), "detail": "source file imports a networking module"} for f, m in hits]
     if lint_violations:
         outs.append({"index": 10**9 + 1, "seed": 0, "violations": lint_violations, "signatures": [("static_lint", True)], "stats": {"runs": 0}, "sample": {"static_lint_hits": hits},
                      "case": dict(case, mode="static_lint")})
     log("C18 import seam: walk_packages run done; static lint (auxiliary): %d files, %d hits" % (files, len(hits)))
-    return outs, {"coverage": {"static_lint": {"kind": "non-simulation auxiliary (AST walk)", "files": files, "hits": [list(h) for h in hits]}}}
+    return outs, {"coverage": {"crash_points_enumerated": sweep_info, "static_lint": {"kind": "non-simulation auxiliary (AST walk)", "files": files, "hits": [list(h) for h in hits]}}}
